@@ -13,6 +13,10 @@
 //!               variable: the image bit/byte it lands in (little-endian, bit n of byte b).
 //! * `tri`     — the same address bound in %I, %Q and %M at once (areas are independent).
 //! * `pair`    — two bindings in one area whose byte spans overlap or touch.
+//! * `short-image` — images of 0/1/2/3/5/7 bytes: cells inside / crossing the end / beyond it, via
+//!               the raw API and via a bound variable with a driver filling the short image: a read
+//!               decodes the existing bytes (missing bytes 0), a write grows the image exactly to
+//!               the cell's end (`short-image/read:%IW:crosses-end`).
 //! Extra dimensions: binding site `alltasked` (every program task-bound, INTERVAL 100 ms, cycles at
 //! t = 0/100/125/225 ms: two cycles in which no task is due; an output-bound variable is changed
 //! through the storage API before them; never a debugger attached) — every cycle, idle or not, must
@@ -2032,6 +2036,186 @@ fn run_api(addr: &Addr, variant: usize) -> Vec<Violation> {
 }
 
 // ------------------------------------------------------------------------------------------
+// family `short-image`: cells that cross or lie beyond the end of a short image
+// ------------------------------------------------------------------------------------------
+
+const SHORT_LENS: [usize; 6] = [0, 1, 2, 3, 5, 7];
+
+/// little-endian decode of the bytes that exist, missing bytes read as 0 (the image's documented default)
+fn get_zero_ext(img: &[u8], a: &Addr) -> u64 {
+    let mut ext = img.to_vec();
+    let end = a.byte_span().1;
+    if ext.len() < end {
+        ext.resize(end, 0);
+    }
+    img_get(&ext, a)
+}
+
+/// a write grows the image exactly to the end of the cell (new bytes 0) and changes only the cell
+fn put_growing(img: &[u8], a: &Addr, v: u64) -> Vec<u8> {
+    let mut ext = img.to_vec();
+    let end = a.byte_span().1;
+    if ext.len() < end {
+        ext.resize(end, 0);
+    }
+    img_put(&mut ext, a, v);
+    ext
+}
+
+fn span_position(a: &Addr, len: usize) -> &'static str {
+    let (s, e) = a.byte_span();
+    if e <= len {
+        "inside"
+    } else if s < len {
+        "crosses-end"
+    } else {
+        "beyond"
+    }
+}
+
+fn run_short(addr: &Addr, len: usize, bound: bool) -> Vec<Violation> {
+    let case = json!({"family": "short-image", "mode": if bound { "bound" } else { "api" }, "addr": addr.text(), "len": len});
+    let pos = span_position(addr, len);
+    let tag = format!("%{}{}:{pos}", addr.area.ch(), addr.size.ch());
+    let fill = |rt: &mut Runtime| {
+        rt.io_mut().resize(len, len, len);
+        for (i, b) in rt.io_mut().inputs_mut().iter_mut().enumerate() {
+            *b = mem_pat(0, i);
+        }
+        for (i, b) in rt.io_mut().outputs_mut().iter_mut().enumerate() {
+            *b = mem_pat(2, i);
+        }
+        for (i, b) in rt.io_mut().memory_mut().iter_mut().enumerate() {
+            *b = mem_pat(4, i);
+        }
+    };
+    let snap = |rt: &Runtime| [rt.io().inputs().to_vec(), rt.io().outputs().to_vec(), rt.io().memory().to_vec()];
+    let ai = match addr.area {
+        Area::I => 0,
+        Area::Q => 1,
+        Area::M => 2,
+    };
+    let r = catch(|| -> Result<Vec<(String, String)>, String> {
+        let mut v: Vec<(String, String)> = Vec::new();
+        if !bound {
+            // (a) raw API on a fresh, short interface
+            let mut rt = Runtime::new();
+            fill(&mut rt);
+            let before = snap(&rt);
+            let parsed = IoAddress::parse(&addr.text()).map_err(|e| format!("{e:?}"))?;
+            let exp = get_zero_ext(&before[ai], addr);
+            match rt.io().read(&parsed) {
+                Ok(val) => {
+                    let got = value_bits(bits_type(addr.size), &val);
+                    if got != Some(exp) {
+                        v.push((
+                            format!("short-image/read:{tag}"),
+                            format!("IoInterface::read({}) on a {len}-byte image [{}] = {val:?}, expected {exp:#x} (existing bytes little-endian, missing bytes 0)", addr.text(), hex(&before[ai])),
+                        ));
+                    }
+                }
+                Err(e) => v.push((format!("short-image/read-error:{tag}"), format!("IoInterface::read({}) on a {len}-byte image failed: {e:?}", addr.text()))),
+            }
+            if snap(&rt) != before {
+                v.push((format!("short-image/read-modifies:{tag}"), format!("IoInterface::read({}) changed an image", addr.text())));
+            }
+            let newv = !exp & addr.size.mask();
+            match rt.io_mut().write(&parsed, api_value(addr.size, newv)) {
+                Ok(()) => {
+                    let after = snap(&rt);
+                    for x in 0..3 {
+                        let want = if x == ai { put_growing(&before[x], addr, newv) } else { before[x].clone() };
+                        if after[x] != want {
+                            v.push((
+                                format!("short-image/write:{tag}"),
+                                format!(
+                                    "IoInterface::write({}, {newv:#x}) on {len}-byte images: %{} image is [{}], expected [{}] (grown exactly to the end of the cell, other bytes unchanged)",
+                                    addr.text(), AREAS[x].ch(), hex(&after[x]), hex(&want)
+                                ),
+                            ));
+                        }
+                    }
+                }
+                Err(e) => v.push((format!("short-image/write-error:{tag}"), format!("IoInterface::write({}) on a {len}-byte image failed: {e:?}", addr.text()))),
+            }
+            return Ok(v);
+        }
+        // (b) a bound variable; the driver is handed (and fills) the short input image
+        let ty = bits_type(addr.size);
+        let mut src = format!("PROGRAM Main\nVAR\n  b0 AT {} : {};\n  r0 : {};\n  s0 : {};\nEND_VAR\n", addr.text(), ty.name, ty.name, ty.name);
+        if addr.area.reads() {
+            src.push_str("r0 := b0;\n");
+        }
+        if addr.area.writes() {
+            src.push_str("b0 := s0;\n");
+        }
+        src.push_str("END_PROGRAM\n");
+        let mut h = TestHarness::from_source(&src).map_err(|e| format!("short-image program rejected: {e}"))?;
+        let rt = h.runtime_mut();
+        fill(rt);
+        let sh = Arc::new(Mutex::new(Shared { events: Vec::new(), calls: vec![0; 1], fail_read: false, fail_write: false }));
+        rt.add_io_driver("d0", Box::new(LogDriver { id: 0, ndrv: 1, sh: sh.clone() }));
+        let home = find_home(rt, Shape::Local)?;
+        let sval = src_bits(ty, 0, 1, 2, 0, 1);
+        set_var(rt, &home, "s0", mk_value(ty, sval))?;
+        let before = snap(rt);
+        if rt.execute_cycle().is_err() {
+            return Ok(v); // a runtime that refuses short images with an error is accepted
+        }
+        let supplied: Vec<u8> = (0..len).map(|i| in_pat(0, 0, i)).collect();
+        if addr.area.reads() {
+            let latched = if addr.area == Area::I { &supplied } else { &before[2] };
+            let exp = get_zero_ext(latched, addr);
+            let obs = get_var(rt, &home, "r0").and_then(|x| value_bits(ty, &x));
+            if obs != Some(exp) {
+                v.push((
+                    format!("short-image/bound-read:{tag}"),
+                    format!("b0 AT {} : {} read {obs:?} from the {len}-byte image [{}], expected {exp:#x} (existing bytes little-endian, missing bytes 0)", addr.text(), ty.name, hex(latched)),
+                ));
+            }
+        }
+        if rt.io().inputs() != &supplied[..] {
+            v.push((format!("short-image/input-image:{tag}"), format!("input image after the cycle [{}] differs from the {len} bytes the driver supplied [{}]", hex(rt.io().inputs()), hex(&supplied))));
+        }
+        if addr.area.writes() {
+            let want = put_growing(&before[ai], addr, sval);
+            let got = if addr.area == Area::Q { rt.io().outputs().to_vec() } else { rt.io().memory().to_vec() };
+            if got != want {
+                v.push((
+                    format!("short-image/bound-write:{tag}"),
+                    format!("b0 AT {} : {} := {sval:#x} on a {len}-byte image: image is [{}], expected [{}]", addr.text(), ty.name, hex(&got), hex(&want)),
+                ));
+            }
+            if addr.area == Area::Q {
+                let given: Vec<Vec<u8>> = sh.lock().unwrap().events.iter().filter_map(|e| if let Ev::Write { image, .. } = e { Some(image.clone()) } else { None }).collect();
+                if given.len() != 1 || given[0] != want {
+                    v.push((
+                        format!("short-image/bound-publish:{tag}"),
+                        format!("the driver was given {:?}, expected one image [{}]", given.iter().map(|g| hex(g)).collect::<Vec<_>>(), hex(&want)),
+                    ));
+                }
+            }
+        }
+        let after = snap(rt);
+        for x in 0..3 {
+            if x != ai && x != 0 && after[x] != before[x] {
+                v.push((format!("short-image/other-area:{tag}"), format!("the %{} image changed although nothing is bound there", AREAS[x].ch())));
+            }
+        }
+        Ok(v)
+    });
+    match r {
+        Ok(Ok(v)) => v.into_iter().map(|(tail, what)| Violation { signature: format!("C07/{tail}"), what, case: case.clone() }).collect(),
+        Ok(Err(m)) => vec![Violation { signature: "C07/machinery".into(), what: format!("short-image harness: {m}"), case }],
+        Err(m) => vec![Violation {
+            signature: format!("C07/panic/short-image/{}", norm_msg(&m)),
+            what: format!("access to {} on a {len}-byte image panicked: {m}", addr.text()),
+            case,
+        }],
+    }
+}
+
+// ------------------------------------------------------------------------------------------
 // enumeration
 // ------------------------------------------------------------------------------------------
 
@@ -2433,6 +2617,43 @@ pub fn run(ctx: &Ctx) -> EngineResult {
     evaluations += api_cases;
     rep.set("api_cases", api_cases);
 
+    // ---- family short-image -----------------------------------------------------------------
+    let mut short_cases = 0u64;
+    let mut short_positions: BTreeMap<&'static str, u64> = BTreeMap::new();
+    let mut short_seen: HashSet<(char, Size, &'static str)> = HashSet::new();
+    for bound in [false, true] {
+        for len in SHORT_LENS {
+            for area in AREAS {
+                for addr in addresses(area) {
+                    if addr.size == Size::X && !matches!(addr.bit, 0 | 3 | 7) {
+                        continue;
+                    }
+                    short_cases += 1;
+                    *short_positions.entry(span_position(&addr, len)).or_insert(0) += 1;
+                    let vs = run_short(&addr, len, bound);
+                    if let Some(m) = vs.iter().find(|v| v.signature == "C07/machinery") {
+                        return machinery(m.what.clone());
+                    }
+                    // the image code is the same for all areas and for bound variables: a
+                    // (read|write, size, position) that already failed is not reported again
+                    for v in vs {
+                        let rw = if v.signature.contains("read") { 'r' } else { 'w' };
+                        if v.signature.starts_with("C07/short-image/") && !short_seen.insert((rw, addr.size, span_position(&addr, len))) {
+                            continue;
+                        }
+                        rep.violation(v);
+                    }
+                }
+            }
+        }
+    }
+    if ["inside", "crosses-end", "beyond"].iter().any(|p| !short_positions.contains_key(p)) {
+        return machinery(format!("short-image family does not reach every span position: {short_positions:?}"));
+    }
+    evaluations += short_cases;
+    rep.set("short_image_cases", short_cases);
+    rep.set("short_image_span_positions", json!(short_positions));
+
     // ---- binding families -------------------------------------------------------------------
     let cases = enumerate(&plan);
     eprintln!("[C07] {} binding cases enumerated at {:.1}s", cases.len(), ctx.elapsed());
@@ -2639,6 +2860,12 @@ pub fn run(ctx: &Ctx) -> EngineResult {
 }
 
 pub fn check_case(case: &J) -> Vec<Violation> {
+    if case["family"].as_str() == Some("short-image") {
+        let Some(addr) = case["addr"].as_str().and_then(Addr::parse) else {
+            return Vec::new();
+        };
+        return run_short(&addr, case["len"].as_u64().unwrap_or(0) as usize, case["mode"].as_str() == Some("bound"));
+    }
     if case["family"].as_str() == Some("api") {
         let Some(addr) = case["addr"].as_str().and_then(Addr::parse) else {
             return Vec::new();
